@@ -43,6 +43,8 @@ type runTarget struct {
 func (t *runTarget) Evaluate(engine runner.Engine) error {
 	proj, label, info := t.target.Project(), t.target.Label(), t.target.info()
 
+	verifPoint("eval.enter", label.String())
+
 	// Copy the current version of the data.
 	t.data = info.Data
 
@@ -73,6 +75,8 @@ func (t *runTarget) Evaluate(engine runner.Engine) error {
 			depsUpToDate = false
 		}
 	}
+
+	verifPoint("eval.deps-done", label.String())
 
 	// Check whether the target is up-to-date.
 	upToDate, reason, diff, err := t.target.upToDate()
@@ -108,10 +112,14 @@ func (t *runTarget) Evaluate(engine runner.Engine) error {
 		return nil
 	}
 
+	verifPoint("eval.before-body", label.String())
+
 	// Otherwise, evaluate the target.
 	data, changed, err := t.target.evaluate()
+	verifPoint("eval.after-body", label.String())
 	if err != nil {
 		proj.events.TargetFailed(label, err)
+		verifPoint("eval.fail-before-save", label.String())
 
 		// If the target fails, record that it must be re-run on the next build.
 		proj.saveTargetInfo(label, targetInfo{
@@ -136,6 +144,7 @@ func (t *runTarget) Evaluate(engine runner.Engine) error {
 		proj.events.TargetFailed(label, err)
 		return err
 	}
+	verifPoint("eval.after-save", label.String())
 	proj.events.TargetSucceeded(label, changed)
 	return nil
 }
